@@ -114,6 +114,11 @@ def gen_doc(kind, variant):
                        DescendantFonts=[W.R(12)])
         raw = "あいう漢字".encode("cp932")
         pages = [b"BT /F1 12 Tf 50 700 Td <%s> Tj ET" % raw.hex().encode(), b"BT /F1 12 Tf 50 650 Td <%s> Tj ET" % raw[:4].hex().encode()]
+    elif kind == "sharedcontents":
+        # both pages name the same indirect /Contents array: what rendering one page does with the list of streams must
+        # not be visible to the other page, to a second rendering of the same page, or depend on caching
+        objs[10] = W.simple_font("ShCont")
+        pages = [b"BT /F1 12 Tf 50 700 Td (Shared %d first stream) Tj ET" % variant, b"BT /F1 12 Tf 50 650 Td (second stream) Tj ET"]
     elif kind == "manynames":
         # a valid page whose content uses 70 000 distinct marked-content tags: every name met is interned for the life
         # of the process, and what was read before (and the library's own constants) must stay what it was
@@ -249,6 +254,10 @@ def gen_doc(kind, variant):
         kids.append(W.R(21 + 2 * i))
     objs[1] = W.D(Type=W.N("Catalog"), Pages=W.R(2))
     objs[2] = W.D(Type=W.N("Pages"), Kids=kids, Count=len(kids))
+    if kind == "sharedcontents":
+        objs[45] = [W.R(20), W.R(22)]
+        objs[21][b"Contents"] = W.R(45)
+        objs[23][b"Contents"] = W.R(45)
     if kind == "csnames" and variant % 2 == 0:
         objs[21][b"Resources"] = {b"Font": {b"F1": W.R(10)},
                                   b"ColorSpace": {b"CS0": [W.N("ICCBased"), W.R(47)], b"DeviceRGB": [W.N("ICCBased"), W.R(47)]}}
@@ -333,6 +342,7 @@ def make_pool(rnd):
     pool.append(["gen", "csnames", 1])
     pool.append(["gen", "cmapstream", 0])
     pool.append(["gen", "cmapstream", 1])
+    pool.append(["gen", "sharedcontents", rnd.randrange(2)])
     cv = rnd.sample(range(4), 2)
     pool.append(["gen", "crypt", cv[0]])
     pool.append(["gen", "crypt", cv[1]])
